@@ -16,7 +16,7 @@ import (
 func init() {
 	register("C15",
 		"week-index arithmetic, the contents of GetWeeks, and whether the month-separated week walk visits exactly one (month, week) position per step (after the repair of the shadowed variable the walk still mis-steps for some (first weekday, n); that residue is arithmetic and invisible to these rules).",
-		r15_1, r15_2, r15_3, r15_4, r15_5, r15_6, r15_7, r15_8, r07_1)
+		r15_1, r15_2, r15_3, r15_5, r15_6, r15_7, r15_8, r15_9, r07_1)
 }
 
 // steppingMethods: methods named Next* whose first non-receiver parameter is an int.
@@ -232,23 +232,7 @@ func constTripCount(c *Ctx, fn *ssa.Function, li *loopInfo) (int64, bool) {
 
 func r15_3(c *Ctx, r *Report) {
 	const rule = "R15.3"
-	r.rule(rule, "Unit sizes. A week lists 7 days (1 + a constant-trip loop of 6), a season 3 months, a half-year 6, a year 12, all from the named constants; moving n whole weeks is NextDay(7*n); moving by seasons/half-years multiplies by the same 3/6 used for listing; (the month step and the weekday-offset wrap are decided by R15.7 and R15.6).")
-	sizes := []struct {
-		fn   string
-		want int64
-	}{{"calendar.(*SolarWeek).GetDays", 7}, {"calendar.(*SolarSeason).GetMonths", 3}, {"calendar.(*SolarHalfYear).GetMonths", 6}, {"calendar.(*SolarYear).GetMonths", 12}}
-	for _, s := range sizes {
-		fn := c.Fn(r, rule, s.fn)
-		if fn == nil {
-			continue
-		}
-		n, desc, ok := pushCount(c, fn)
-		if !ok {
-			r.bad(rule, s.fn+" lists a fixed number of elements", c.fnPos(fn), "element count not derivable: "+desc+" (undecided = fail)")
-			continue
-		}
-		r.check(n == s.want, rule, fmt.Sprintf("%s lists %d elements", s.fn, s.want), c.fnPos(fn), fmt.Sprintf("pushes: %s = %d", desc, n))
-	}
+	r.rule(rule, "Unit steps. (What the units list is decided element by element by R15.9.) Moving n whole weeks is NextDay(7*n); moving by seasons/half-years multiplies by the same 3/6 used for listing; (the month step and the weekday-offset wrap are decided by R15.7 and R15.6).")
 	// multiplier agreement between listing and stepping
 	mulArg := func(fnName, calleeName string, argIdx int) (int64, bool, *ssa.Function) {
 		fn := c.Fn(r, rule, fnName)
@@ -315,7 +299,7 @@ func r15_3(c *Ctx, r *Report) {
 		r.check(ok, rule, "calendar.(*SolarYear).Next adds the step to the year", c.fnPos(fn), "year + n")
 	}
 	// the month step (12) and the weekday-offset wrap (7) are decided by R15.7 and R15.6
-	r.floor(rule, 7)
+	r.floor(rule, 4)
 }
 
 type constUse struct {
